@@ -492,6 +492,11 @@ func (fc *FuncCtx) selectPath(st *State, base Term, sel *types.Selection, n ast.
 		f := stt.Field(idx)
 		v, ok := fc.reg().fieldOf(cur, f.Name())
 		if !ok {
+			// a field of a library struct that no contract models: its value is unknown at every read
+			if si := fc.reg().StructInfo(cur.T); si != nil && si.Opaque {
+				cur = fc.fresh("unmodelled_"+f.Name(), f.Type())
+				continue
+			}
 			fc.fail(n, "field %s of opaque type %s is not modelled", f.Name(), types.TypeString(cur.T, nil))
 		}
 		cur = v
@@ -1197,12 +1202,25 @@ func (fc *FuncCtx) chanRecvOK(st *State, x *ast.UnaryExpr, ok string) Term {
 	fc.chanRecvAssume(st, x.X, v, ok, x)
 	// `opt countrecvs <chan>`: ghost recvs_<chan> counts the values taken from that package-level channel
 	if fc.contract != nil && fc.contract.Opts["countrecvs"] != "" {
-		if key := fc.globalKey(x.X); key != "" {
+		key := fc.globalKey(x.X)
+		if key == "" {
+			// a channel held in a parameter or local variable is named by that variable
+			if id, isId := unparen(x.X).(*ast.Ident); isId {
+				key = id.Name
+			}
+		}
+		if key != "" {
 			name := key[strings.LastIndex(key, ".")+1:]
 			for _, want := range strings.Fields(fc.contract.Opts["countrecvs"]) {
 				if want == name {
 					cur := st.ghost["recvs_"+name]
 					st.ghost["recvs_"+name] = mkMath("(+ " + cur.S + " (ite " + ok + " 1 0))")
+					// lastrecv_<chan>: the value of the latest successful receive
+					if prev, have := st.ghost["lastrecv_"+name]; have && prev.T != nil && fc.reg().SortOf(prev.T) == fc.reg().SortOf(v.T) {
+						st.ghost["lastrecv_"+name] = Term{S: ite(ok, v.S, prev.S), T: v.T}
+					} else {
+						st.ghost["lastrecv_"+name] = v
+					}
 				}
 			}
 		}
